@@ -945,9 +945,11 @@ func (c *Ctx) c09Consumers() {
 	c.MinCount("R09e", "parseString results followed", n, 4)
 	// statement quote arm: canHaveZeroLenStr = true
 	if p := c.c10FindParser("R09e"); p != nil {
+		fall := false // the previous quote arm was `case '\'': fallthrough` — this arm does its work
 		for _, st := range p.main.Body.List {
 			cc := st.(*ast.CaseClause)
-			isQuote := false
+			isQuote := fall
+			fall = false
 			for _, x := range cc.List {
 				if k, ok := constInt(info, x); ok && (k == '\'' || k == '"') {
 					isQuote = true
@@ -962,6 +964,12 @@ func (c *Ctx) c09Consumers() {
 					if b, ok := constBool(info, as.Rhs[0]); ok && b {
 						good = true
 					}
+				}
+			}
+			if !good && len(cc.Body) > 0 {
+				if br, ok := cc.Body[len(cc.Body)-1].(*ast.BranchStmt); ok && br.Tok == token.FALLTHROUGH {
+					fall = true
+					continue
 				}
 			}
 			c.Check(good, "R09e", "statement-quote-arm:zero-len", cc.Pos(), "the quote arm of parseStatement sets canHaveZeroLenStr unconditionally: an empty literal '' / \"\" is one zero-length argument, not nothing")
